@@ -133,7 +133,22 @@ theorem not_wf_mergeOk : ¬ MergeOk (relaxationOld exT) (fun _ s => bestRem exT 
 theorem value_form_holds_there : mergeValOkAt exT exU exM = true ∧ mergeValOkAt exT exW exM = true := by decide
 
 -- ------------------------------------------------------------------------------------------------------------------
--- stated (evaluated pointwise by the driver on every event of every case; not proved)
+-- stated here (evaluated pointwise by the driver on every event of every case); PROVED or REFUTED in `TsptwProofs*.lean`
+-- (summary: `TsptwProofsMain.lean`, closed corollary `tsptw_relaxed_ub`: `TsptwProofsClosed.lean`).  `TabOk T` = a table as the
+-- reader builds it (`tabOk_tabOf`), `Valid T s` = `validB` + "the lists are sets" (`Set256`):
+-- * `ValueInv T`                : `valueInv_holds` (no hypothesis);
+-- * `ExactShape T`              : `exactShape_partial` (`TabOk T`);
+-- * `bestRemL_eq_on_exact T`    : `bestRemL_eq_on_exact_partial` (`TabOk T`);
+-- * `merge_ok T`                : FALSE as stated over `validB` states (`merge_ok_false`: a list with a duplicate, not reachable);
+--                                 true on `Valid` states (`merge_ok_valid`, `merge_ok_partial`); the potential form for the
+--                                 repaired `relax` is `mergeOk : MergeOkStmt T` (`mergeOkAny` for `mergeOkAt`);
+-- * `rub_admissible T`          : FALSE as stated (`rub_admissible_false`: a single position that is an optional city;
+--                                 `rub_admissible_late_false`: a state of the last layer that is late at the depot; neither is
+--                                 reachable); true on the valid states none of whose positions is a city still to visit and not
+--                                 late on the last layer (`rub_admissible_partial`), and for the potential `hStar` on EVERY
+--                                 such valid state, merged ones included (`rub_hStar`);
+-- * `dp_exact T`                : `dp_exact_partial` (`TabOk T`);   `spec_eq_specBestExt T` : `spec_eq_specBestExt_proved`;
+-- * `dominance_admissible T`    : `dominance_admissible_partial` (`TabOk T`).
 
 /-- the states reached exactly from the root have a single position, a fixed time, no optional city, and their value is minus
     their time -/
